@@ -12,6 +12,7 @@ import (
 	"log/slog"
 	"net/http"
 	"net/http/httptest"
+	"sync"
 	"sync/atomic"
 
 	"github.com/high-moctane/mocrelay"
@@ -218,7 +219,9 @@ type c20Case struct {
 	Extra      [][]string `json:"extra,omitempty"`      // further request headers the property does not mention
 	// Prior: the document the SAME *NIP11 value held when it was requested once before; the
 	// configuration was then changed in place to Doc and requested again (obs is the second answer)
-	Prior      *c20Doc `json:"prior,omitempty"`
+	Prior *c20Doc `json:"prior,omitempty"`
+	// Busy: other goroutines request this document from another NIP11 value all the while (see c20Exchange)
+	Busy       *c20Doc `json:"busy,omitempty"`
 	Doc        *c20Doc `json:"doc"` // route: nil = no NIP11 configured
 	HasDefault bool    `json:"has_default,omitempty"`
 	Obs        *c20Obs `json:"obs,omitempty"`
@@ -244,7 +247,7 @@ func (h c20LogFlag) Handle(context.Context, slog.Record) error {
 func (h c20LogFlag) WithAttrs([]slog.Attr) slog.Handler { return h }
 func (h c20LogFlag) WithGroup(string) slog.Handler      { return h }
 
-func c20Exchange(c *c20Case, direct bool) {
+func c20ExchangeOnce(c *c20Case, direct bool) {
 	obs := &c20Obs{CT: []string{}, ACAO: []string{}}
 	c.Obs = obs
 	var relayHit, defaultHit atomic.Bool
@@ -323,6 +326,45 @@ func c20Exchange(c *c20Case, direct bool) {
 		obs.ACAO = v
 	}
 	obs.Body = rec.Body.String()
+}
+
+// c20Exchange: one exchange; with Busy set, the exchange is repeated 150 times while four goroutines keep
+// requesting the document Busy from a NIP11 value of their own, and the observation is the first one that
+// differs from the first exchange's, if any does (the front door serves many requests at once).
+func c20Exchange(c *c20Case, direct bool) {
+	c20ExchangeOnce(c, direct)
+	if c.Busy == nil || c.Obs == nil {
+		return
+	}
+	first := *c.Obs
+	stop := make(chan struct{})
+	var wg sync.WaitGroup
+	other := c.Busy.To()
+	for g := 0; g < 4; g++ {
+		wg.Add(1)
+		go func() {
+			defer wg.Done()
+			defer func() { recover() }()
+			for {
+				select {
+				case <-stop:
+					return
+				default:
+				}
+				req := httptest.NewRequest("GET", "http://relay.example/", nil)
+				req.Header.Set("Accept", "application/nostr+json")
+				other.ServeHTTP(httptest.NewRecorder(), req)
+			}
+		}()
+	}
+	for k := 0; k < 150; k++ {
+		c20ExchangeOnce(c, direct)
+		if c.Obs.Body != first.Body || c.Obs.Status != first.Status || c.Obs.Panic != first.Panic {
+			break
+		}
+	}
+	close(stop)
+	wg.Wait()
 }
 
 func c20Run(c *c20Case) {
@@ -533,11 +575,19 @@ func c20Gen(r *common.Rand, i int) c20Case {
 		if c.Doc != nil && r.Chance(25) {
 			c.Prior = c20GenDoc(r)
 		}
+		if c.Doc != nil && c.Upgrade == nil && r.Chance(6) {
+			c.Accept = []string{c20NJ}
+			c.Busy = c20GenDoc(r)
+		}
 		return c
 	case p < 13:
 		c := c20Case{K: "direct", Accept: common.Pick(r, c20Accepts), Doc: c20GenDoc(r), Method: "GET", Extra: c20GenExtra(r)}
 		if r.Chance(30) {
 			c.Prior = c20GenDoc(r)
+		}
+		if r.Chance(6) {
+			c.Accept = []string{c20NJ}
+			c.Busy = c20GenDoc(r)
 		}
 		return c
 	case p < 17:
